@@ -30,16 +30,18 @@ type Step struct {
 type Plan struct {
 	Mode string `json:"mode"` // stress | replay | expiry
 	// DeadlineMs > 0: the filters' inactivity deadline (hook H4), so that timeoutLoop and the deadline timers fire
-	DeadlineMs int    `json:"deadlineMs"`
-	Api        bool   `json:"api"`
-	Clients    int    `json:"clients"`
-	Rounds     int    `json:"rounds"`
-	Topics     int    `json:"topics"`
-	Events     int    `json:"events"`
-	Polls      int    `json:"polls"`
-	Seed       int64  `json:"seed"`
-	Steps      []Step `json:"steps"`
-	Out        string `json:"out"`
+	DeadlineMs int `json:"deadlineMs"`
+	// StallPermille: see Rec.StallPermille (free stress only)
+	StallPermille int    `json:"stallPermille"`
+	Api           bool   `json:"api"`
+	Clients       int    `json:"clients"`
+	Rounds        int    `json:"rounds"`
+	Topics        int    `json:"topics"`
+	Events        int    `json:"events"`
+	Polls         int    `json:"polls"`
+	Seed          int64  `json:"seed"`
+	Steps         []Step `json:"steps"`
+	Out           string `json:"out"`
 }
 
 // Result is what the child reports (next to trace.ndjson).
@@ -248,6 +250,9 @@ func Run(plan *Plan) error {
 	_, _ = sink.Write(append(hdr, '\n'))
 	rec := NewRec()
 	rec.Sink = sink
+	if plan.Mode == "stress" {
+		rec.StallPermille, rec.StallSeed = plan.StallPermille, plan.Seed
+	}
 	if plan.Mode == "replay" {
 		rec.Gated = func(ev Event) bool {
 			switch ev.L {
@@ -353,10 +358,12 @@ func stress(plan *Plan, rig *Rig, rec *Rec, cls map[int]*cl, rng *rand.Rand) {
 			}
 		}
 	}()
+	limit := time.After(12 * time.Second) // (a run takes well under a second; stalled goroutines are reported by Run)
 	for i := 1; i <= plan.Clients; i++ {
 		select {
 		case <-cls[i].done:
-		case <-time.After(20 * time.Second):
+		case <-limit:
+			limit = time.After(0)
 		}
 	}
 	close(stop)
